@@ -22,7 +22,7 @@ BASES = ('std::slice::Iter', 'std::slice::IterMut', 'std::vec::IntoIter', 'std::
 CONSUMERS = ('any', 'all', 'find', 'position', 'count', 'fold', 'for_each', 'try_fold')
 # consumers the interpreter still summarises as quantifier / fold terms on plain slice iterators (rules written against
 # those terms); everything else is lowered
-SUMMARISED = {'fold'}
+SUMMARISED = set()
 SIMPLE = re.compile(r"^(std::iter::Copied<)?std::slice::Iter<'[_a-z]*, .*>$")
 _CONS_RE = re.compile(r'^(?:std::iter::Iterator::|<.* as std::iter::Iterator>::)(%s)$' % '|'.join(CONSUMERS))
 
